@@ -465,7 +465,7 @@ func init() {
 		"fmt.Fprintln": fmtNop,
 		"fmt.Fprintf":  fmtNop,
 		"fmt.Fprint":   fmtNop,
-		"fmt.Sprintf":  fmtStr,
+		"fmt.Sprintf":  fmtSprintf,
 		"fmt.Sprint":   fmtSprint,
 		"fmt.Sprintln": fmtStr,
 		"fmt.Errorf": func(r *Run, fn *ssa.Function, a []Value) Value {
@@ -473,6 +473,78 @@ func init() {
 			return r.callFunction(ef, []Value{r.constStr("<fmt.Errorf>")}, nil)
 		},
 		"log.Println": nop, "log.Printf": nop, "log.Print": nop,
+
+		// encoding/binary.Write / Read for integers, booleans and byte slices (the library falls back to reflection for
+		// named integer types, which the engine does not model)
+		"encoding/binary.Write": func(r *Run, fn *ssa.Function, a []Value) Value {
+			w, order, data := a[0].(*IfaceV), a[1].(*IfaceV), a[2].(*IfaceV)
+			big := strings.Contains(order.typ.String(), "bigEndian")
+			var bs []*Term
+			switch v := data.val.(type) {
+			case *Term:
+				n := v.w / 8
+				if v.w == 0 {
+					n = 1
+				}
+				if v.w == IntW {
+					panic(unsupported("binary.Write of an Int-mode value"))
+				}
+				for i := 0; i < n; i++ {
+					sh := i
+					if big {
+						sh = n - 1 - i
+					}
+					var b *Term
+					if v.w == 0 {
+						b = r.ts.Ite(v, r.ts.Const(8, 1), r.ts.Const(8, 0))
+					} else {
+						b = r.ts.Extract(v, 8*sh+7, 8*sh)
+					}
+					bs = append(bs, b)
+				}
+			case *SliceV:
+				bs = r.sliceBytes(v)
+			default:
+				panic(unsupported(fmt.Sprintf("binary.Write of %v", data.typ)))
+			}
+			res := r.callMethod(w, "Write", []Value{r.newByteSlice(bs, len(bs))})
+			return res.(TupleV)[1]
+		},
+		"encoding/binary.Read": func(r *Run, fn *ssa.Function, a []Value) Value {
+			rd, order, data := a[0].(*IfaceV), a[1].(*IfaceV), a[2].(*IfaceV)
+			big := strings.Contains(order.typ.String(), "bigEndian")
+			p, ok := data.val.(*PtrV)
+			if !ok {
+				panic(unsupported(fmt.Sprintf("binary.Read into %v", data.typ)))
+			}
+			cur, ok := r.load(p).(*Term)
+			if !ok || cur.w == IntW || cur.w == 0 {
+				panic(unsupported(fmt.Sprintf("binary.Read into %v", data.typ)))
+			}
+			n := cur.w / 8
+			buf := r.newByteSlice(nil, n)
+			buf.len = n
+			res := r.callMethod(rd, "Read", []Value{buf}).(TupleV)
+			got := res[0].(*Term)
+			if !got.IsConst() {
+				panic(unsupported("binary.Read: symbolic read length"))
+			}
+			if int(got.k) < n {
+				ef := r.eng.lookupFunc("errors.New")
+				return r.callFunction(ef, []Value{r.constStr("unexpected EOF")}, nil)
+			}
+			bs := r.sliceBytes(buf)
+			v := r.ts.Const(cur.w, 0)
+			for i := 0; i < n; i++ {
+				sh := i
+				if big {
+					sh = n - 1 - i
+				}
+				v = r.ts.bin(OpOr, v, r.ts.bin(OpShl, r.ts.ZExt(bs[i], cur.w), r.ts.Const(cur.w, uint64(8*sh))))
+			}
+			r.store(p, v)
+			return &IfaceV{}
+		},
 
 		// ------------------------------------------------------------------ hashes (ghost byte streams)
 		"crypto/sha256.New":    func(r *Run, fn *ssa.Function, a []Value) Value { return r.newHash("sha256", "crypto/sha256", "digest") },
@@ -571,6 +643,52 @@ func fmtNop(r *Run, fn *ssa.Function, a []Value) Value {
 	return TupleV{r.ts.Const(64, 0), &IfaceV{}}
 }
 func fmtStr(r *Run, fn *ssa.Function, a []Value) Value { return r.constStr("<fmt>") }
+
+// fmtSprintf: fmt.Sprintf when the format and every operand are concrete strings, integers or booleans (the real
+// fmt.Sprintf is applied to their Go values); the placeholder otherwise.
+func fmtSprintf(r *Run, fn *ssa.Function, a []Value) Value {
+	fs, ok := a[0].(StrV).concrete()
+	if !ok {
+		return r.constStr("<fmt>")
+	}
+	sl, ok := a[1].(*SliceV)
+	var args []interface{}
+	if ok && sl.obj != nil {
+		arr := r.sliceArr(sl)
+		for i := 0; i < sl.len; i++ {
+			iv, isI := arr.e[sl.off+i].(*IfaceV)
+			if !isI || iv.typ == nil {
+				return r.constStr("<fmt>")
+			}
+			switch v := iv.val.(type) {
+			case StrV:
+				str, c := v.concrete()
+				if !c {
+					return r.constStr("<fmt>")
+				}
+				args = append(args, str)
+			case *Term:
+				if !v.IsConst() {
+					return r.constStr("<fmt>")
+				}
+				b, isB := iv.typ.Underlying().(*types.Basic)
+				switch {
+				case isB && b.Info()&types.IsBoolean != 0:
+					args = append(args, v.k != 0)
+				case v.w == IntW:
+					args = append(args, v.bk)
+				case isB && b.Info()&types.IsUnsigned != 0:
+					args = append(args, v.k)
+				default:
+					args = append(args, sext64(v.k, v.w))
+				}
+			default:
+				return r.constStr("<fmt>")
+			}
+		}
+	}
+	return r.constStr(fmt.Sprintf(fs, args...))
+}
 
 // fmtSprint: fmt.Sprint for operands that are strings (symbolic bytes allowed) and concrete integers / booleans;
 // anything else gives the placeholder. Spaces go between operands when neither is a string, as in package fmt.
@@ -1002,4 +1120,24 @@ func sipHash24(k0, k1 uint64, p []byte) uint64 {
 	round()
 	round()
 	return v0 ^ v1 ^ v2 ^ v3
+}
+
+
+// callMethod invokes an exported method of the dynamic type of an interface value.
+func (r *Run) callMethod(recv *IfaceV, name string, args []Value) Value {
+	if recv == nil || recv.typ == nil {
+		r.goPanic("runtime error: invalid memory address or nil pointer dereference")
+	}
+	ms := r.eng.prog.MethodSets.MethodSet(recv.typ)
+	for i := 0; i < ms.Len(); i++ {
+		sel := ms.At(i)
+		if sel.Obj().Name() == name {
+			fn := r.eng.prog.MethodValue(sel)
+			if fn == nil {
+				break
+			}
+			return r.callFunction(fn, append([]Value{recv.val}, args...), nil)
+		}
+	}
+	panic(unsupported(fmt.Sprintf("method %s not found on %v", name, recv.typ)))
 }
